@@ -18,22 +18,22 @@ ENGINE = "simnet"
 LEVEL = "exploration"
 TECHNIQUE = "deterministic network simulation with in-memory TLS: verification-setting lattice x adversarial server certificates x handshake faults; server-side plaintext observer vs a three-valued reference"
 LEVEL_TEXT = (
-    "Seeded cells of cert_reqs x assert_hostname x assert_fingerprint x server_hostname x ssl_context kind x CA source x issuer x SAN shape x requested host form, directly and "
+    "Seeded cells of cert_reqs x assert_hostname x assert_fingerprint x server_hostname x ssl_context kind x CA source x issuer x SAN shape x requested host form x TLS backend (stdlib ssl, pyOpenSSL), directly and "
     "through http/https proxy tunnels (TLS-in-TLS), with real handshakes in memory and optional faults at handshake I/O steps; in every must-reject cell the origin-side observer "
     "must have seen zero plaintext bytes, the client must raise SSLError and the socket must be closed; unvalidated connections must warn and never report is_verified. Sampling."
 )
-LEVEL_NOTE = "trusted: the three-valued reference (must-reject / must-accept / either) in this module; client TLS runs through urllib3's SSLTransport instead of ssl.SSLSocket; the pyOpenSSL backend axis is not simulated (needs a real file descriptor)"
+LEVEL_NOTE = "trusted: the three-valued reference (must-reject / must-accept / either) in this module; stdlib backend: client TLS runs through urllib3's SSLTransport instead of ssl.SSLSocket; pyOpenSSL backend: urllib3.contrib.pyopenssl (PyOpenSSLContext, WrappedSocket, its own hostname matching) is real, OpenSSL.SSL.Connection runs in memory-BIO mode pumped over the SimSocket (simkit/ossl.py)"
 N = {"quick": 14000, "thorough": 200000}
 BUDGET = {"quick": 50, "thorough": 420}
 RULE = "index k -> one lattice cell (+ path direct / http-proxy tunnel / https-proxy tunnel, + optional handshake step fault). Non-trivial = cell is must-reject or unvalidated; distinct = distinct cell tuple."
 ASSUMPTIONS = [
     "CERT_OPTIONAL cells and caller-supplied contexts that contradict cert_reqs are 'either' for rejection (only 'nothing sent before an error' is demanded)",
     "must-accept cells that fail are counted (vacuity guard), not reported as C07 violations",
-    "pyOpenSSL backend not covered (SSL_set_fd needs a kernel socket)",
+    "pyOpenSSL backend: direct and http-proxy-tunnel paths only (that backend offers no TLS-in-TLS); ca_cert_data with pyOpenSSL 26.4 fails closed before the handshake and is only counted",
 ]
 REQUIRED_PROBES = {
-    "quick": ["must_reject_held", "accepted", "unverified_warned", "reject:chain", "reject:hostname", "reject:fingerprint", "path:tunnel", "path:tunnel_tlsproxy", "handshake_fault", "either_cell", "ip_host", "wildcard"],
-    "thorough": ["must_reject_held", "accepted", "unverified_warned", "reject:chain", "reject:hostname", "reject:fingerprint", "path:tunnel", "path:tunnel_tlsproxy", "handshake_fault", "either_cell", "ip_host", "wildcard"],
+    "quick": ["must_reject_held", "accepted", "unverified_warned", "reject:chain", "reject:hostname", "reject:fingerprint", "path:tunnel", "path:tunnel_tlsproxy", "handshake_fault", "either_cell", "ip_host", "wildcard", "pyopenssl_handshake_in_memory"],
+    "thorough": ["must_reject_held", "accepted", "unverified_warned", "reject:chain", "reject:hostname", "reject:fingerprint", "path:tunnel", "path:tunnel_tlsproxy", "handshake_fault", "either_cell", "ip_host", "wildcard", "pyopenssl_handshake_in_memory"],
 }
 
 # requested host -> (host string in the URL, names the certificate shape must cover)
@@ -105,6 +105,12 @@ def gen(rng):
         cell["ca"] = rng.choice(["ca_certs", "ca_cert_data"])
         cell["ssl_context"] = "none"
     sc = {"property": ID, "cell": cell}
+    if path != "tunnel_tlsproxy" and rng.random() < 0.3:
+        # pyOpenSSL backend (urllib3.contrib.pyopenssl injected) over the same simulated network, see simkit/ossl.py;
+        # TLS-in-TLS is not offered by that backend (PyOpenSSLContext has no wrap_bio)
+        cell["backend"] = "pyopenssl"
+        if cell["ca"] == "ca_cert_data" and rng.random() < 0.8:
+            cell["ca"] = "ca_certs"  # with pyOpenSSL 26 ca_cert_data fails closed ("unable to load trusted certificates"): keep a few, not a third
     if rng.random() < 0.12:
         sc["step_faults"] = [{"at": rng.randrange(0, 14), "kind": rng.choice(["eof", "reset", "timeout", "eio"])}]
     return sc
@@ -207,7 +213,31 @@ def build_kwargs(cell):
     return kw, served
 
 
+class _backend:
+    """stdlib ssl (default) or urllib3.contrib.pyopenssl injected for the duration of one run."""
+
+    def __init__(self, which):
+        self.which = which
+        self.cm = None
+
+    def __enter__(self):
+        if self.which == "pyopenssl":
+            from simkit import ossl
+
+            self.cm = ossl.injected()
+            self.cm.__enter__()
+
+    def __exit__(self, *a):
+        if self.cm is not None:
+            self.cm.__exit__(*a)
+
+
 def run(sc: dict) -> Result:
+    with _backend(sc["cell"].get("backend", "ssl")):
+        return _run(sc)
+
+
+def _run(sc: dict) -> Result:
     from urllib3.exceptions import InsecureRequestWarning, MaxRetryError, ProxyError, SSLError
 
     res = Result()
@@ -235,6 +265,8 @@ def run(sc: dict) -> Result:
         w.tunnel_factory = lambda w_, chan, target: origin_factory(w_, chan)
     res.probes["path:" + path] += 1
     url = f"https://{host}/secret"
+    backend = cell.get("backend", "ssl")
+    res.probes["backend:" + backend] += 1
     with H.RunEnv(), H.quiet_warnings() as qw, w:
         err = None
         r = None
@@ -258,6 +290,11 @@ def run(sc: dict) -> Result:
         fault_fired = bool(w.faults_fired)
         if fault_fired:
             res.probes["handshake_fault"] += 1
+        if backend == "pyopenssl":
+            if any(t[0] == "client_wrap_pyopenssl" for t in w.tls_log):
+                res.probes["pyopenssl_handshake_in_memory"] += 1
+            if any(t[0] == "client_wrap" for t in w.tls_log):
+                raise W.SeamError("stdlib ssl wrap happened although the pyOpenSSL backend is injected")
         warned = bool(qw.of(InsecureRequestWarning))
         if cell["host"] in ("ip4", "ip6", "ip6zone"):
             res.probes["ip_host"] += 1
@@ -336,9 +373,9 @@ def shrinks(sc):
         c = copy.deepcopy(sc)
         c["step_faults"] = []
         yield c
-    simple = {"path": "direct", "host": "lower", "shape": "origin", "issuer": "trusted", "cert_reqs": "unset", "assert_hostname": "unset", "assert_fingerprint": "unset", "server_hostname": "unset", "ssl_context": "none", "ca": "ca_certs"}
+    simple = {"backend": "ssl", "path": "direct", "host": "lower", "shape": "origin", "issuer": "trusted", "cert_reqs": "unset", "assert_hostname": "unset", "assert_fingerprint": "unset", "server_hostname": "unset", "ssl_context": "none", "ca": "ca_certs"}
     for k, v in simple.items():
-        if sc["cell"][k] != v:
+        if sc["cell"].get(k, v) != v:
             c = copy.deepcopy(sc)
             c["cell"][k] = v
             yield c
